@@ -58,11 +58,13 @@ def c08(c):
 def c07(c):
     c.gen("http", "http", "GenHttp.v")
     c.coq(["http"], "C07", "HttpC")
+    # declared trailers and header blocks of arbitrary shape: proved in coq/respdec (the trailer-state lemmas of the C09 composition)
+    c.coq(["http", "httpresp", "respdec"], "C07Trailers", "RespDecC")
     c.trusted += [EXTRACT_TB,
                   "net/http (http.ReadRequest / http.ReadResponse) is the reference; that the model's `meaning` coincides with what net/http extracts is tested on every generated message, not proved",
                   "url.ParseRequestURI and http.ParseHTTPVersion are shared stdlib calls",
                   "Go harness cmd/httpref (real ServerProcessor/ClientProcessor + handler)"]
-    c.assumptions += ["theorem covers body-less requests and their pipelining only (c07_*_partial); bodies, chunking, trailers and responses are decided by the differential run"]
+    c.assumptions += ["theorems (c07_*_partial) cover requests and responses without a body, with Content-Length bodies, chunked bodies and declared trailers, and their pipelining; chunk extensions, trailer lines out of declaration order, HTAB and upper-case hex are decided by the differential run only"]
     c.harness("httpref", ["-n", n(c, 3000, 100000)], overlay=True, model=HTTP_MODEL, timeout=3000)
     c.finish()
 
